@@ -1598,14 +1598,16 @@ def tagToXML(tag: str | bytes) -> str:
     if re.match("[A-Za-z_][A-Za-z_0-9]* *$", tag):
         return tag.strip()
     else:
-        return tagToIdentifier(tag)
+        # Escape trailing spaces too, so that an escaped name is always at
+        # least 8 characters long and xmlToTag() can tell it from a plain tag.
+        return tagToIdentifier(tag) + "20" * (4 - max(1, len(tag.rstrip(" "))))
 
 
 def xmlToTag(tag: str) -> str:
     """The opposite of tagToXML()"""
     if tag == "OS_2":
         return Tag("OS/2")
-    if len(tag) == 8:
+    if len(tag) >= 8:
         return identifierToTag(tag)
     else:
         return Tag(tag + " " * (4 - len(tag)))
